@@ -9,9 +9,10 @@ REQUIRED = ["Never.C07.verified_table_wellformed", "Never.C07.verified_every_fau
             "Never.C07.verified_frame_heights", "Never.C07.verified_mark_step", "Never.C07.verified_slide_step", "Never.C07.verified_clear_stack_step",
             "Never.C07.verified_data_step", "Never.C07.verified_local_in_frame", "Never.C07.frame_slot_is_read",
             "Never.C07.verified_step_in_activation", "Never.C07.verified_run_in_activation", "Never.C07.verified_run_fn_in_activation",
-            "Never.C07.stack_size_invariant", "Never.C07.verified_call_step", "Never.C07.verified_ret_step", "Never.C07.mark_pushes_record",
-            "Never.C07.verify_sound_partial", "Never.C07.verified_marked_call_returns", "Never.C07.verify_sound_from_start_partial", "Never.C07.frame_words_kept",
-            "Never.C07.effect_table_write_footprint", "Never.C07.verified_step_keeps_callers_frames", "Never.C07.verify_sound_pending_partial"]
+            "Never.C07.stack_size_invariant", "Never.C07.effect_table_write_footprint", "Never.C07.verified_step_keeps_frame_records",
+            "Never.C07.verified_step_keeps_callers_frames", "Never.C07.verified_mk_init_array_extents", "Never.C07.callee_arity_suffices",
+            "Never.C07.mark_pushes_record", "Never.C07.verified_ret_step", "Never.C07.verified_marked_call_returns",
+            "Never.C07.verify_sound_partial", "Never.C07.verify_sound_from_start_partial", "Never.C07.verify_sound_step_partial"]
 
 def verify_dump(path):
     """-> (verdict line, {address: (height, nparams)} for the addresses inside function bodies)"""
@@ -80,8 +81,8 @@ def check(tier, seed):
         hn, hbad = height_check(r["trace"], hs) if out.startswith("ok") else (0, None)
         err = r["err"]
         kind = vm_corr.impl_outcome(r)["kind"]
-        # side conditions of `verify_sound_partial` (StepOk: arity of the function value at CALL, frame words of live records not
-        # overwritten, MK_INIT_ARRAY finds the recorded constants), checked by the model on every replayed step of this run
+        # side conditions of `verify_sound_partial` (StepOk: arity of the function value at CALL, free cell at INT; plus the proved
+        # conditions re-validated: frame words of live records, MK_INIT_ARRAY extents), checked by the model on every replayed step
         side = None
         if out.startswith("ok") and replay_side(j) and kind.startswith(("return", "exit")):
             try:
@@ -111,7 +112,7 @@ def check(tier, seed):
                 if side_fail_progs <= 3:
                     src = j.get("src") or open(j["file"]).read()
                     rep.violation("c07_side_%s" % j["name"],
-                        "# a side condition of C07's soundness theorem (Props/C07 verify_sound_partial: StepOk) fails on this run of a verified module:\n# %s\n# (a CALL found a function value of another arity / a word of a live frame record was overwritten / MK_INIT_ARRAY extents are not the recorded constants)\n%s" % (side, src), True)
+                        "# a side condition of C07's soundness theorem (Props/C07 verify_sound_partial: StepOk) fails on this run of a verified module:\n# %s\n# (a CALL found a function value of another arity than its call site passes / the allocator handed an INT a cell in use / — proved conditions re-validated: a word of a live frame record was overwritten / MK_INIT_ARRAY extents are not the recorded constants)\n%s" % (side, src), True)
         if out == "nodump" or out == "":
             stats["not-compiled"] += 1
             if kind.startswith(("sanitizer", "signal", "assert", "crash")):
@@ -144,7 +145,7 @@ def check(tier, seed):
     rep.cov.update(side_condition_steps_checked=side_steps, side_condition_programs=side_progs, side_condition_failing_programs=side_fail_progs, side_condition_skipped_ffi_call=side_ffi,
                    height_steps_cross_checked=hsteps, height_mismatch_programs=hbads, programs=stats["ok"] + stats["FAIL"], disagreements_checked=stats["FAIL"],
                    samples=samples, statuses=stats, totals=agg,
-                   trusted_base=["Lean definition of `verify` (Model/Verify.lean) + its compiled driver", "side conditions of verify_sound_partial (StepOk) are CHECKED on the replayed runs (stepOkB), not proved: arity of function values at CALL, frame words of live records not overwritten, MK_INIT_ARRAY constants", "module dump of h_vm.c (public structs) and the NEVER_VERIF function-table hook",
+                   trusted_base=["Lean definition of `verify` (Model/Verify.lean) + its compiled driver", "the two typing side conditions of verify_sound_partial (StepOk: arity of the function value at a CALL = callArgs of the site; the allocator hands an INT a free cell) are CHECKED on the replayed runs (stepOkB), not proved; stepOkB also re-validates the proved ones (frame words of live records, MK_INIT_ARRAY extents)", "module dump of h_vm.c (public structs) and the NEVER_VERIF function-table hook",
                                  "M-VM stack effects tied by lockstep traces (C01)"],
                    explanation="every module the real compiler emits for the samples, the seeded families and the C06 corpus is checked by the Lean verifier: jump targets follow a LABEL in the same function, function values point at function entries, string/build-in references exist, no placeholder, stack heights are a function of the address (joins agree), every instruction finds its operands, frame-relative addressing stays inside the function's own frame, every function returns with exactly its result, tail calls slide exactly (n+L, n+1), exception table and handler entries canonical")
     rep.assumptions = ["translation validation per emitted module: nothing is claimed about programs that were not compiled in this run",
